@@ -238,15 +238,15 @@ theorem serveBound_ind (sc : Scenario) (env : Env) (b : Bound) (P : Resp → Pro
 /-- Case analysis of `serve`: every response is either a rendered failure — `writeError` on a response that has
     not started, without a transcoder for the unbound origins (router, Bind) and with the negotiated one for all
     others — or a success of the stated shape. -/
-theorem serve_ind (sc : Scenario) (env : Env) (P : Resp → Prop)
+theorem serveWith_ind (r : Registry) (sc : Scenario) (env : Env) (P : Resp → Prop)
     (hunbound : ∀ o g e, o.bound = false → (g = true → sc.gone = true) → P (failResp o g none e []))
-    (hbound : ∀ b o g t e h, bind registry env.pm sc.accept (sc.rpc == .clientStream) (sc.rpc == .serverStream) = .ok b →
+    (hbound : ∀ b o g t e h, bind r env.pm sc.accept (sc.rpc == .clientStream) (sc.rpc == .serverStream) = .ok b →
       o.bound = true → (g = true → sc.gone = true) → t.status = env.stEnc → t.mime = b.resp.mime →
       P (failResp o g (some t) e h))
-    (hsucc : ∀ b r, bind registry env.pm sc.accept (sc.rpc == .clientStream) (sc.rpc == .serverStream) = .ok b →
-      SuccessShape sc env (if b.sse then eventStream else b.resp.mime) b.sse r → P r) :
-    P (serve sc env) := by
-  unfold serve
+    (hsucc : ∀ b rr, bind r env.pm sc.accept (sc.rpc == .clientStream) (sc.rpc == .serverStream) = .ok b →
+      SuccessShape sc env (if b.sse then eventStream else b.resp.mime) b.sse rr → P rr) :
+    P (serveWith r sc env) := by
+  unfold serveWith
   repeat' split
   all_goals first
     | (apply hunbound
@@ -254,7 +254,17 @@ theorem serve_ind (sc : Scenario) (env : Env) (P : Resp → Prop)
        · first | (intro h; exact h) | (intro h; cases h))
     | (apply serveBound_ind sc env _ P
        · intro o g t e h; exact hbound _ o g t e h ‹_›
-       · intro r; exact hsucc _ r ‹_›)
+       · intro rr; exact hsucc _ rr ‹_›)
+
+theorem serve_ind (sc : Scenario) (env : Env) (P : Resp → Prop)
+    (hunbound : ∀ o g e, o.bound = false → (g = true → sc.gone = true) → P (failResp o g none e []))
+    (hbound : ∀ b o g t e h, bind registry env.pm sc.accept (sc.rpc == .clientStream) (sc.rpc == .serverStream) = .ok b →
+      o.bound = true → (g = true → sc.gone = true) → t.status = env.stEnc → t.mime = b.resp.mime →
+      P (failResp o g (some t) e h))
+    (hsucc : ∀ b r, bind registry env.pm sc.accept (sc.rpc == .clientStream) (sc.rpc == .serverStream) = .ok b →
+      SuccessShape sc env (if b.sse then eventStream else b.resp.mime) b.sse r → P r) :
+    P (serve sc env) :=
+  serveWith_ind registry sc env P hunbound hbound hsucc
 
 /-! ### metadata → headers -/
 
